@@ -113,6 +113,7 @@ func runC20(t *verifsim.Tape, cfg engine.Config) *engine.Outcome {
 	sim := verifsim.NewSim(t)
 	sim.Strategy = verifsim.Strategy(t.Draw("strategy", 4))
 	sim.KeepLog = cfg.Verbose
+	sim.MapMode = verifsim.MapSeeded // map iteration order in goa comes from the tape, not from the Go runtime
 	// ---- server ------------------------------------------------------------------
 	mux := goahttp.NewMuxer()
 	useRID := t.Draw("use-rid-mw", 2) == 0
